@@ -200,3 +200,8 @@ def check(ctx, env):
     r6_1_calculator(ctx, prog)
     r6_2_manager(ctx, prog)
     r6_3_wiring(ctx, prog)
+    # R6.4: with several outstanding requests the schedule of each depends on the shared timer heap being ordered by
+    # absolute expiry and on check() popping exactly the expired entries (same rules as C11 R11.3 / R11.4)
+    from . import codec_rules as K
+    K.r11_3_order(ctx, prog, rule="R6.4")
+    K.r11_4_pairing(ctx, prog, rule="R6.4")
